@@ -15,6 +15,11 @@ import sys
 H = os.path.dirname(os.path.dirname(os.path.abspath(__file__)))
 sys.path.insert(0, os.path.join(H, "selftest"))
 from mutants import MUTANTS  # noqa: E402
+for _m, _n in (("mutants_c15", "MUTANTS_C15"), ("mutants_c18", "MUTANTS_C18"), ("mutants_c12ray", "MUTANTS_C12RAY")):
+    try:
+        MUTANTS = MUTANTS + getattr(__import__(_m), _n)
+    except ImportError:
+        pass
 
 WT = "/tmp/verif-selftest-wt-%d" % os.getpid()
 
